@@ -22,10 +22,17 @@ ASSUMPTIONS = ["column objects are instances of shipped classes or of classes sy
                "synthesised classes are identified structurally in the model; the harness never places a synthesised class of one column in another column"]
 
 
+import C05 as _C05   # the header-relabel scenario (a header edited in place, then used by a Strict writer)
+
+
 def generate(rng, n):
     out = []
     for _ in range(n):
-        out.append(G.gen_writeseq(rng) if rng.random() < 0.12 else G.gen_write(rng, strict_share=0.85))
+        r = rng.random()
+        if r < 0.03:
+            out.append(_C05._gen_hdredit(rng))
+        else:
+            out.append(G.gen_writeseq(rng) if r < 0.15 else G.gen_write(rng, strict_share=0.85))
     return out
 
 
@@ -58,11 +65,24 @@ def corpus():
     return out
 
 
-skip_compare = G.model_dontcare
-shrink = G.shrink
-to_model = G.to_model
-from_model = G.from_model
-run_impl = G.run_impl
+def skip_compare(case):
+    return case["kind"] == "hdredit" or G.model_dontcare(case)
+
+
+def shrink(case):
+    return iter(()) if case["kind"] == "hdredit" else G.shrink(case)
+
+
+def to_model(case):
+    return [4] if case["kind"] == "hdredit" else G.to_model(case)
+
+
+def from_model(case, sx):
+    return {"hdredit": True} if case["kind"] == "hdredit" else G.from_model(case, sx)
+
+
+def run_impl(case):
+    return _C05._run_hdredit(case) if case["kind"] == "hdredit" else G.run_impl(case)
 
 
 def comparable(obs):
@@ -70,6 +90,14 @@ def comparable(obs):
 
 
 def oracle(case, obs):
+    if case["kind"] == "hdredit":
+        ex = obs["extra"]
+        out = []
+        if ex["names_ok"] is False:
+            out.append("emitted-file-rejected-by-strict-reader/header-names-another-scheme-than-the-column-line | via %s" % case["how"])
+        if ex["file_germline"]:
+            out.append("emitted-line-rejected-by-strict-reader/germline-under-masked-header | %s" % ex["file_germline"][:2])
+        return out
     if case["kind"] == "writeseq":
         return G.oracle_c06_seq(case, obs)
     return G.oracle_c06(case, obs)
